@@ -141,3 +141,21 @@ Lemma gen_pc_append_colon j buf : Layout.pc_append_colon j buf = Some (buf ++ [i
 Proof. first [ reflexivity | unfold Layout.pc_append_colon; destruct j; reflexivity ]. Qed.
 Lemma gen_pc_append_comma j buf : Layout.pc_append_comma j buf = Some (buf ++ [if j then x2c else x20]).
 Proof. first [ reflexivity | unfold Layout.pc_append_comma; destruct j; reflexivity ]. Qed.
+
+(* ---- Entry.printTimestamp, over the translated helpers ---- *)
+Require Verif.Gen.Escapes Verif.Gen.Colors Verif.Proofs.GenColorP.
+Lemma gen_print_timestamp f_ts hex safe pc noColor json buf :
+  Layout.print_timestamp f_ts hex safe pc noColor json buf =
+  if noColor
+  then match Escapes.string_key hex safe json buf [x74;x69;x6d;x65] with
+       | None => None
+       | Some b => Some (f_ts (b ++ [if json then x3a else x3d]) ++ [if json then x2c else x20])
+       end
+  else Some (f_ts (buf ++ echo_color 32) ++ [x20]).
+Proof.
+  first [ reflexivity
+        | unfold Layout.print_timestamp; destruct noColor;
+          [ destruct (Escapes.string_key hex safe json buf [x74;x69;x6d;x65]) as [b|]; [|reflexivity];
+            rewrite gen_pc_append_colon, gen_pc_append_comma; reflexivity
+          | rewrite GenColorP.gen_echo_color, gen_pc_append_byte; reflexivity ] ].
+Qed.
